@@ -134,6 +134,7 @@ func (c *reconnectClient) Connect(ctx context.Context, clientID string, opts ...
 					}
 					select {
 					case <-baseCli.Done():
+						verifEvent("reconnLoopWake", 0)
 						cancelKeepAlive()
 						if err := baseCli.Err(); err == nil {
 							// Disconnected as expected; don't restart.
@@ -144,6 +145,7 @@ func (c *reconnectClient) Connect(ctx context.Context, clientID string, opts ...
 						// User cancelled; don't restart.
 						return
 					case <-c.disconnected:
+						verifEvent("reconnLoopWake", 1)
 						cancelKeepAlive()
 						return
 					}
